@@ -47,7 +47,7 @@ def tentative_outside_curve(p, hyd, a, b):
 class C06(Check):
     pid = "C06"
     level = "proof"
-    prop_modules = ["WntrModel.Props.C06"]
+    prop_modules = ["WntrModel.Props.C06", "WntrModel.Lemmas.TankShape"]
     extra_targets = ["WntrModel.Model.Controls"]
     manifest = dict(
         category="proof",
@@ -81,7 +81,16 @@ class C06(Check):
     ]
 
     def translate(self, ctx):
-        pass
+        """Gen/TankShape.lean regenerated from the Python ast of update_tank_heads, _interp_extrapolate, Tank.get_volume,
+        _run_postsolve_controls and the _internal_status writers; Lemmas/TankShape.lean proves the interpretation is the model"""
+        import c06_translate
+
+        try:
+            text, writers = c06_translate.generate()
+        except c06_translate.Bad as e:
+            raise vlib.BrokenTie("c06_translate: %s" % e)
+        ctx.cov["translated"] = ["update_tank_heads", "_interp_extrapolate", "Tank.get_volume", "_run_postsolve_controls", "_internal_status writers (%d)" % len(writers)]
+        vlib.write_if_changed(os.path.join(vlib.GEN, "TankShape.lean"), text)
 
     # ------------------------------------------------------------------ pieces
     def _function_level(self, ctx, B, failures, broken):
